@@ -36,9 +36,13 @@ pub struct LinSpec {
     /// weights and bias of the layer are multiplied by 2^scale (exact)
     #[serde(default)]
     pub scale: i8,
-    /// 0 = ordinary width; k > 0 = a wide layer of 15 + k neurons (k <= 9)
+    /// 0 = ordinary width; k > 0 = a wide layer of 15 + k neurons (k <= 25)
     #[serde(default)]
     pub wide: u8,
+    /// a second round of activations on the same neurons before the next linear layer (clipped ReLU = ReLU then
+    /// hard tanh, leaky ReLU twice, ...): an activation layer may follow an activation layer
+    #[serde(default)]
+    pub acts2: Vec<Act>,
 }
 
 #[derive(Clone, Debug, Serialize, Deserialize)]
@@ -86,7 +90,9 @@ fn sel_for(row: usize, dim: usize) -> u16 {
 
 pub fn run_case(c: &Case, ctx: &mut Ctx) -> CaseResult {
     let n = c.in_dim;
-    let anchors: Vec<Vec<f64>> = c.anchors.iter().map(|a| a[..n].to_vec()).collect();
+    // generator values are 3-dimensional; larger input dimensions (the rare data-sized regime) tile them
+    let tile = |a: &[f64]| -> Vec<f64> { (0..n).map(|j| a[j % a.len()]).collect() };
+    let anchors: Vec<Vec<f64>> = c.anchors.iter().map(|a| tile(a)).collect();
     // precondition
     let (pre_tree, mut r): (Option<AffTree<2>>, Ref) = match &c.pre {
         Pre::None => {
@@ -130,6 +136,12 @@ pub fn run_case(c: &Case, ctx: &mut Ctx) -> CaseResult {
             }
             ctx.class("scaled_layer");
         }
+        if width >= 16 && dim >= 24 {
+            // data-sized layer: the neuron in the first activation slot gets a zero bias, so that the terminals on
+            // both sides of its breakpoint differ in one matrix row only
+            a.bias[7] = 0.0;
+            ctx.class("data_sized_layer");
+        }
         if let Some((i, j)) = ls.dup {
             let (i, j) = (i as usize % width, j as usize % width);
             a.mat.rows[j] = a.mat.rows[i].clone();
@@ -151,8 +163,15 @@ pub fn run_case(c: &Case, ctx: &mut Ctx) -> CaseResult {
         layers.push(Layer::Linear(a.lib()));
         r = r.then(&Ref::leaf(a.q()));
         dim = width;
-        for row in 0..width {
-            let act = ls.acts.get(row).unwrap_or(&Act::None);
+        // in a wide layer the (at most four) activation slots sit on neurons spread over the layer, not on the first four
+        let slot = |k: usize| -> usize { if width >= 16 { [7, width / 2, width - 2, 3][k % 4] } else { k } };
+        let slots = if width >= 16 { 4 } else { width };
+        let rounds: Vec<(usize, &Act)> = (0..slots)
+            .map(|k| (slot(k), ls.acts.get(k).unwrap_or(&Act::None)))
+            .chain((0..slots).map(|k| (slot(k), ls.acts2.get(k).unwrap_or(&Act::None))))
+            .collect();
+        ctx.class_if(ls.acts2.iter().zip(&ls.acts).take(width).any(|(b, a)| !matches!(a, Act::None) && !matches!(b, Act::None)), "neuron_activated_twice");
+        for (row, act) in rounds {
             // size caps: exact rational LP on rounded (53-bit) coefficients is expensive, so
             // float-regime networks get at most 4 activated neurons, exact ones at most 8
             let cap = if width >= 16 { 3 } else if exact { 8 } else { 4 };
@@ -224,7 +243,7 @@ pub fn run_case(c: &Case, ctx: &mut Ctx) -> CaseResult {
     if t.in_dim != n {
         return Err(Failure::new(format!("distilled tree has in_dim {} but the network has {n} inputs", t.in_dim)));
     }
-    let all_inputs: Vec<Vec<Q>> = c.points.iter().map(|p| qv(&p.resolve(&anchors, n)[..n])).collect();
+    let all_inputs: Vec<Vec<Q>> = c.points.iter().map(|p| qv(&tile(&p.resolve(&anchors, n.min(3))))).collect();
     let (mode, inputs): (EquivMode, Vec<Vec<Q>>) = if exact {
         (EquivMode::exact(), all_inputs)
     } else {
@@ -265,7 +284,8 @@ fn lin_spec(float: bool) -> impl Strategy<Value = LinSpec> {
         proptest::collection::vec(act(), W),
         prop_oneof![9 => Just(0i8), 2 => -16i8..=16],
     )
-        .prop_map(|(a, width, plant, dup, acts, scale)| LinSpec { a, width, plant, dup, acts, scale, wide: 0 })
+        .prop_flat_map(|(a, width, plant, dup, acts, scale)| (Just((a, width, plant, dup, acts, scale)), prop_oneof![5 => Just(Vec::<Act>::new()), 1 => proptest::collection::vec(act(), W)]))
+        .prop_map(|((a, width, plant, dup, acts, scale), acts2)| LinSpec { a, width, plant, dup, acts, scale, wide: 0, acts2 })
 }
 
 pub struct C01;
@@ -276,7 +296,7 @@ impl Property for C01 {
         "C01"
     }
     fn rule(&self) -> String {
-        "networks with 1..3 inputs, 1..3 linear layers of width 1..4 (dyadic weights; ~10% raw floating-point weights), each neuron independently followed by none/ReLU/leaky ReLU (alpha in {0, 1/2, -1, 2, 1/8})/hard tanh/hard sigmoid, optional argmax or class head, optional linear layer after the head, precondition none / generated polytope (full-dimensional, lower-dimensional or empty) given as from_poly(P, identity, None); biases planted so that pre-activations hit breakpoints exactly at forward-propagated anchor points; duplicated output rows for argmax ties; 2.5 % of the exact networks have a wide hidden layer (16-24 neurons, at most 3 activated). The distilled tree is compared with the network's textbook semantics on ALL full-dimensional linear regions by exact LP (reference = composition of the definitions) and by evaluate() at anchors, lattice neighbours and free lattice points, undefinedness outside the precondition included, with NO thin exemption. Non-trivial = >= 2 activated neurons, >= 2 full-dimensional cells and >= 1 input exactly on a breakpoint/tie (float regime: the first two); distinct = distinct serialised cases".into()
+        "networks with 1..3 inputs, 1..3 linear layers of width 1..4 (dyadic weights; ~10% raw floating-point weights), each neuron independently followed by none/ReLU/leaky ReLU (alpha in {0, 1/2, -1, 2, 1/8})/hard tanh/hard sigmoid, optional argmax or class head, optional linear layer after the head, precondition none / generated polytope (full-dimensional, lower-dimensional or empty) given as from_poly(P, identity, None); biases planted so that pre-activations hit breakpoints exactly at forward-propagated anchor points; duplicated output rows for argmax ties; a layer may carry a second round of activations on the same neurons; 2.5 % of the exact networks have a wide hidden layer (16-24 neurons, at most 3 activated). The distilled tree is compared with the network's textbook semantics on ALL full-dimensional linear regions by exact LP (reference = composition of the definitions) and by evaluate() at anchors, lattice neighbours and free lattice points, undefinedness outside the precondition included, with NO thin exemption. Non-trivial = >= 2 activated neurons, >= 2 full-dimensional cells and >= 1 input exactly on a breakpoint/tie (float regime: the first two); distinct = distinct serialised cases".into()
     }
     fn assumptions(&self) -> Vec<String> {
         vec![
@@ -315,6 +335,10 @@ impl Property for C01 {
                         c.layers.push(l);
                     }
                     let last = c.layers.len() - 1;
+                    // one wide network in five also has 24..40 inputs: terminal matrices of 500 and more entries
+                    if wk % 8 == 0 {
+                        c.in_dim = 32 + wk as usize / 4;
+                    }
                     for (i, l) in c.layers.iter_mut().enumerate() {
                         if i == 0 && i != last {
                             l.wide = 1 + wk;
